@@ -7,6 +7,12 @@ Section cfg:  exp=<ms|-> nf=<ms|-> nodes=<1..4> type=<node|cluster> place=<key>:
               exp / nf are the cache.Options the cache is BUILT with: `-` = the option is not given, otherwise
               WithExpiry(<ms>) / WithNotFoundExpiry(<ms>) with any integer (0, negative, sub-second, very large);
               the model runs `newOptions` on them (Model.newOptions)
+              inst=<kind>/<exp>/<nf>,…  (round 4) SEVERAL instances over the same servers, replacing exp= / nf=:
+              kind conn | node | wc<k> (NewConn / NewNodeConn / NewConnWithCache over a cache with the harness' own
+              barrier k; monc: NewModel / NewNodeModel / NewModelWithCache), each with its own option values;
+              every op below takes ` i=<n>` (the instance it goes through, default 0), `ctake … i=a+b+c` spreads the
+              readers over instances; `insts` reports what the constructors built:
+              insts => ok q=0 cmds=- kinds=<node|cluster>,… bar=<class>.<class>…,… | dump   (barrier identity per node)
 Ops (see harness/overlay/core/stores/sqlc/zz_verif_c06_test.go):
   take p<pk> [j=] [c=<mask>] [db=1] | qindex x<a> … | get <key> [c=]          mask: i-th cache command of the op
   exec <keys|-> put:<pk>:<v>:<a>|rm:<pk> [c=<m0>/<m1>/…] [db=1] | del <keys|-> [c=<m0>/<m1>/…]
@@ -78,6 +84,50 @@ def parseOptMs (toks : List String) (k : String) : Option (Option Int) :=
   | none => some none
   | some "-" => some none
   | some v => v.toInt?.map some
+
+def parseInstKind (t : String) : Option Spec.InstKind :=
+  if t = "conn" then some .conn
+  else if t = "node" then some .node
+  else match t.toList with
+    | 'w' :: 'c' :: r => (String.ofList r).toNat?.map .wc
+    | _ => none
+
+def parseOptVal (v : String) : Option (Option Int) := if v = "-" then some none else v.toInt?.map some
+
+/-- the instances of a section: `inst=<kind>/<exp>/<nf>,…` (kind: conn | node | wc<k>; exp / nf as above), or —
+`inst` absent — ONE `conn` instance with the section's `exp=` / `nf=`. -/
+def parseInsts (cfg : List String) : Option (List (Spec.InstKind × Options)) :=
+  match kv? cfg "inst" with
+  | some v =>
+    if v = "-" then none else
+    (v.splitOn ",").mapM fun e => match e.splitOn "/" with
+      | [k, x, n] => do pure (← parseInstKind k, { expiry := ← parseOptVal x, notFound := ← parseOptVal n })
+      | _ => none
+  | none => do pure [(.conn, { expiry := ← parseOptMs cfg "exp", notFound := ← parseOptMs cfg "nf" })]
+
+/-- `i=<n>` of an op (default 0) / `i=a+b+c` of a concurrent read. -/
+def parseVia (toks : List String) : Option (List Nat) :=
+  match kv? toks "i" with
+  | none => some [0]
+  | some v => (v.splitOn "+").mapM String.toNat?
+
+def kindName : Spec.InstKind → String
+  | .conn => "conn" | .node => "node" | .wc _ => "with-cache"
+
+/-- `kinds=node,cluster bar=0.0,1.-` of the `insts` observation. -/
+def parseInstObs (toks : List String) : Option (List String × List (List (Option Nat))) := do
+  let ks ← kv? toks "kinds"
+  let bs ← kv? toks "bar"
+  let bars ← (bs.splitOn ",").mapM fun i => (i.splitOn ".").mapM fun b =>
+    if b = "-" then some none else b.toNat?.map some
+  pure (ks.splitOn ",", bars)
+
+/-- what `insts` prints when the constructors keep their promise: barrier classes numbered by first appearance. -/
+def expectedInsts (nodes : Nat) (kinds : List Spec.InstKind) : String :=
+  let bs := kinds.map Spec.InstKind.barrier
+  let ids := bs.map fun b => (bs.eraseDups.idxOf b)
+  let ks := kinds.map fun k => if nodes = 1 ∨ k = .node then "node" else "cluster"
+  "kinds=" ++ ",".intercalate ks ++ " bar=" ++ ",".intercalate (ids.map fun i => ".".intercalate (List.replicate nodes (toString i)))
 
 /-- the input class of an option value (cover counters). -/
 def optClass (name : String) : Option Int → String
@@ -342,40 +392,98 @@ def runSection (r : Report) (sec : Section) : Report := Id.run do
       pure []
   if nodes = 0 || nodes > maxNodes || !(typ = "node" || typ = "cluster") then
     return r.mismatch sec.idx 0 "bad-cfg" (joinSp sec.cfg)
-  let opts : Options ← match parseOptMs sec.cfg "exp", parseOptMs sec.cfg "nf" with
-    | some e, some n => pure { expiry := e, notFound := n }
-    | _, _ =>
+  let insts : List (Spec.InstKind × Options) ← match parseInsts sec.cfg with
+    | some (i :: is) => pure (i :: is)
+    | _ =>
       r := r.mismatch sec.idx 0 "bad-cfg" (joinSp sec.cfg)
-      pure {}
-  let c : Cfg := { Cfg.ofOptions opts with cluster := typ = "cluster", place := placeOf place }
+      pure [(.conn, {})]
+  if nodes ≠ 1 ∧ insts.any (·.1 = .node) then
+    return r.mismatch sec.idx 0 "bad-cfg" (joinSp sec.cfg)
+  let kinds := insts.map (·.1)
+  -- every instance runs over the same servers with the same dispatch; its options are its own
+  let cfgs : List Cfg := insts.map fun i => { Cfg.ofOptions i.2 with cluster := typ = "cluster", place := placeOf place }
+  let c0 : Cfg := cfgs.headD { exp := 1, nf := 1 }
   r := r.addCover s!"section-nodes-{nodes}-{typ}"
-  r := r.addCover (optClass "exp" opts.expiry)
-  r := r.addCover (optClass "nf" opts.notFound)
+  r := r.addCover s!"section-instances-{insts.length}"
+  for i in insts do
+    r := r.addCover s!"instance-{kindName i.1}"
+    r := r.addCover (optClass "exp" i.2.expiry)
+    r := r.addCover (optClass "nf" i.2.notFound)
+  if insts.any (fun i => i.2 ≠ (insts.headD (.conn, {})).2) then r := r.addCover "instances-with-different-options"
+  if (kinds.map Spec.InstKind.barrier).eraseDups.length ≥ 2 then r := r.addCover "instances-with-different-barriers"
+  if (kinds.filter fun k => k.barrier = .sqlcPkg).length ≥ 2 then r := r.addCover "instances-sharing-the-package-barrier"
   let mut s := St.init
   let mut mon := Spec.Mon.init
+  let mut writer : List (CKey × Nat) := []      -- cover only: the instance that last wrote the entry of a key
   for l in sec.lines do
-    match parseOp l.op with
-    | none => r := r.mismatch sec.idx l.idx "bad-op" (joinSp l.op)
-    | some (op, n) =>
+    if l.op.head? = some "insts" then
+      -- what the constructors built (no cache command, no model step)
+      r := { r with ops := r.ops + 1 }
+      r := r.addCover "insts"
+      let model := joinSp (["ok", "q=0", "cmds=-"] ++ (expectedInsts nodes kinds).splitOn " " ++ ["|"] ++ showDump s)
+      let impl := joinSp l.obs
+      match parseInstObs l.obs with
+      | none => r := r.violation sec.idx l.idx s!"unreadable observation [{impl}] op=[insts]"
+      | some (ks, bars) =>
+        for v in Spec.instClauses nodes kinds ks bars do r := r.violation sec.idx l.idx s!"{v} op=[insts] cfg=[{joinSp sec.cfg}] impl=[{impl}]"
+      if model ≠ impl then r := r.mismatch sec.idx l.idx model impl
+      continue
+    match parseOp l.op, parseVia l.op with
+    | none, _ | _, none => r := r.mismatch sec.idx l.idx "bad-op" (joinSp l.op)
+    | some (op, n), some via =>
+      let conc := n = 0
+      if via = [] ∨ via.any (· ≥ cfgs.length) ∨ (!conc ∧ via.length ≠ 1) then
+        r := r.mismatch sec.idx l.idx "bad-op" (joinSp l.op)
+        continue
       r := { r with ops := r.ops + 1 }
       r := r.addCover (opKind op)
-      let conc := n = 0
-      let res := iterStep c s op (if conc then 1 else n) (s, { res := .ok })
+      if via.any (· > 0) then r := r.addCover "op-through-a-later-instance"
       let dbf := match op with | .take _ _ _ d => d | _ => false
-      let model := if conc then
-          -- single loader: one query in flight at most, every reader gets the same result; under a database
-          -- fault every reader that is not sharing a flight re-queries (1 ≤ q ≤ n, printed as `ok`)
-          joinSp ([showRes res.2.res, (if dbf && res.2.q = 1 then "q=ok" else s!"q={res.2.q}"), "cmds=-",
-                   s!"inflight={res.2.q}", "distinct=1", "|"] ++ showDump res.1)
-        else joinSp (showOut (opKind op) res.1 res.2)
+      let multi := Spec.classesOf kinds via > 1
       let impl := joinSp l.obs
+      -- the model of the operation under the options of instance `i`
+      let modelOf (i : Nat) : Cfg × (St × Out) × String :=
+        let c := cfgs.getD i c0
+        let res := iterStep c s op (if conc then 1 else n) (s, { res := .ok })
+        let txt := if conc then
+            -- single loader: one query in flight at most per barrier, every reader gets the same result; under a
+            -- database fault every reader that is not sharing a flight re-queries (1 ≤ q ≤ n), with several barrier
+            -- classes every class loads at most once (1 ≤ q ≤ #classes): both printed as `ok`
+            joinSp ([showRes res.2.res, (if (dbf || multi) && res.2.q = 1 then "q=ok" else s!"q={res.2.q}"), "cmds=-",
+                     s!"inflight={res.2.q}", "distinct=1", "|"] ++ showDump res.1)
+          else joinSp (showOut (opKind op) res.1 res.2)
+        (c, res, txt)
+      -- concurrent readers over instances with different options: the leader's options decide what is written
+      let cands := via.map modelOf
+      let pick := (cands.find? fun m => m.2.2 = impl).getD (modelOf (via.headD 0))
+      let c := pick.1
+      let res := pick.2.1
+      let model := pick.2.2
       if conc then
         r := r.addCover "concurrent-readers"
+        if via.eraseDups.length ≥ 2 then r := r.addCover "concurrent-readers-across-instances"
+        if multi then r := r.addCover "concurrent-readers-across-barrier-classes"
+        if via.eraseDups.length ≥ 2 ∧ !multi ∧ res.2.q = 1 then r := r.addCover "concurrent-load-across-instances-one-barrier"
         if kvNat l.obs "inflight" 99 > 1 then
-          r := r.violation sec.idx l.idx s!"single-loader: more than one database query in flight op=[{joinSp l.op}] impl=[{impl}]"
+          r := r.violation sec.idx l.idx s!"single-loader: more than one database query in flight for one key among instances that promise one barrier op=[{joinSp l.op}] cfg=[{joinSp sec.cfg}] impl=[{impl}]"
         if kvNat l.obs "distinct" 99 ≠ 1 then
           r := r.violation sec.idx l.idx s!"single-loader: concurrent readers received different results op=[{joinSp l.op}] impl=[{impl}]"
       for t in coverOf c s res.1 op res.2 do r := r.addCover t
+      -- cover: entries of one instance served to / invalidated by another
+      let me := via.headD 0
+      match op with
+      | .take pk .. =>
+        if !conc then
+          if res.2.q = 0 && (match res.2.res with | .val _ => true | .notfound => true | _ => false) then
+            match writer.find? (·.1 = .p pk) with
+            | some w => if w.2 ≠ me then r := r.addCover "hit-on-entry-written-by-another-instance"
+            | none => pure ()
+          if res.2.q = 1 then writer := (CKey.p pk, me) :: writer.filter (·.1 ≠ .p pk)
+      | .exec ks _ _ false | .del ks _ =>
+        if ks.any (fun k => (s.cache (c.slot k)).isSome && (match writer.find? (·.1 = k) with | some w => w.2 != me | none => false)) then
+          r := r.addCover "invalidate-entry-written-by-another-instance"
+      | .set k .. => writer := (k, me) :: writer.filter (·.1 ≠ k)
+      | _ => pure ()
       if l.op.contains "w=1" && res.2.res = .notfound && res.2.q ≥ 1 then r := r.addCover "notfound-error-wrapped"
       if model ≠ impl then r := r.mismatch sec.idx l.idx model impl
       match parseObs (if conc then concObs l.obs else l.obs) with
